@@ -17,7 +17,8 @@ import queue as _queue
 
 from ..common import Finding, Report
 
-NEEDS_LOOP = ("buffer", "delay", "rate_limit", "timed_window", "timed_window_unique", "partition", "latest", "map_async")
+NEEDS_LOOP = ("buffer", "delay", "rate_limit", "timed_window", "timed_window_unique", "partition", "latest", "map_async",
+              "dask_scatter", "dask_map")
 PLAIN = ("map", "filter", "sliding_window", "unique")
 JOINS = ("union", "zip", "combine_latest", "zip_latest")
 
@@ -227,6 +228,12 @@ def make_node(kind, ups, seams, A, L):
         async def f(x):
             return x
         return sc.map_async(u, f)   # map_async forwards only stream_name
+    if kind == "dask_scatter":
+        import streamz.dask as sd
+        return sd.scatter(u, **kw)
+    if kind == "dask_map":
+        import streamz.dask as sd
+        return sd.map(sd.scatter(u), lambda x: x)     # every DaskStream node needs a loop, not only scatter
     if kind == "union":
         return sc.union(*ups, **kw)
     if kind == "zip":
@@ -243,7 +250,7 @@ def _with_kw(cls, args, kw):
     return cls(*args)
 
 
-ACCEPTS_KW = ("sliding_window", "unique", "buffer", "delay", "rate_limit", "timed_window", "timed_window_unique",
+ACCEPTS_KW = ("dask_scatter", "sliding_window", "unique", "buffer", "delay", "rate_limit", "timed_window", "timed_window_unique",
               "partition", "latest", "union", "zip", "combine_latest", "zip_latest")
 
 
